@@ -144,6 +144,50 @@ func ruleLevenshtein(c *Ctx, r *Report, funcs []*ssa.Function) {
 		})
 	}
 	if len(ups) == 0 {
+		// built in a constructor stage and assigned whole: Levenshtein = newTable()
+		for f := range inits {
+			instrs(f, func(in ssa.Instruction) {
+				st, ok := in.(*ssa.Store)
+				if !ok || st.Addr != ssa.Value(g) {
+					return
+				}
+				cl, ok := st.Val.(*ssa.Call)
+				if !ok {
+					return
+				}
+				ctor := cl.Call.StaticCallee()
+				if ctor == nil || !inits[ctor] {
+					return
+				}
+				// the constructor returns one map it made itself
+				var mk ssa.Value
+				okRet := true
+				instrs(ctor, func(in2 ssa.Instruction) {
+					if rt, ok := in2.(*ssa.Return); ok {
+						ops := retOperands(rt)
+						if len(ops) != 1 {
+							okRet = false
+							return
+						}
+						if _, isMk := ops[0].(*ssa.MakeMap); !isMk || (mk != nil && mk != ops[0]) {
+							okRet = false
+							return
+						}
+						mk = ops[0]
+					}
+				})
+				if !okRet || mk == nil {
+					return
+				}
+				instrs(ctor, func(in2 ssa.Instruction) {
+					if mu, ok := in2.(*ssa.MapUpdate); ok && mu.Map == mk {
+						ups = append(ups, upd{mu, ctor})
+					}
+				})
+			})
+		}
+	}
+	if len(ups) == 0 {
 		r.undecided("T4", where, "init-shape", "", "no map update through Levenshtein found in an initialiser")
 		return
 	}
@@ -170,6 +214,47 @@ func ruleLevenshtein(c *Ctx, r *Report, funcs []*ssa.Function) {
 		}
 		val, ok := cFloat(constVal(u.mu.Value))
 		if !ok {
+			// one store of a value chosen by the comparison of the two indices: cost := 0; if i != j { cost = -1 }
+			if phi, isPhi := u.mu.Value.(*ssa.Phi); isPhi {
+				okPhi := true
+				vals := map[string]float64{}
+				for k, e := range phi.Edges {
+					v, okc := cFloat(constVal(e))
+					if !okc {
+						okPhi = false
+						break
+					}
+					p := phi.Block().Preds[k]
+					rel := dominatingRelation(p, i, j)
+					if rel == "" {
+						// the edge comes straight from the comparison
+						if iff, ok := lastInstr(p).(*ssa.If); ok {
+							if bo, ok := iff.Cond.(*ssa.BinOp); ok && ((bo.X == i && bo.Y == j) || (bo.X == j && bo.Y == i)) && (bo.Op == token.EQL || bo.Op == token.NEQ) {
+								onTrue := p.Succs[0] == phi.Block()
+								if (bo.Op == token.EQL) == onTrue {
+									rel = "eq"
+								} else {
+									rel = "ne"
+								}
+							}
+						}
+					}
+					if rel == "" {
+						okPhi = false
+						break
+					}
+					if old, dup := vals[rel]; dup && old != v {
+						okPhi = false
+					}
+					vals[rel] = v
+				}
+				if okPhi && len(vals) == 2 {
+					sawEq, sawNe = true, true
+					r.check(vals["eq"] == 0, "T4", where, "diagonal", pos, "value stored on the i == j edge is 0", fmt.Sprintf("value stored on the i == j edge is %v, want 0", vals["eq"]))
+					r.check(vals["ne"] == -1, "T4", where, "off-diagonal", pos, "value stored on the i != j edge is -1 (also every gap score)", fmt.Sprintf("value stored on the i != j edge is %v, want -1", vals["ne"]))
+					continue
+				}
+			}
 			r.undecided("T4", where, "value", pos, "stored value is not a constant")
 			continue
 		}
